@@ -58,9 +58,9 @@ def domains(alpha_id, maxlen2, maxlen3, int_lo_neg, int_hi):
     return D
 
 
-ADV_CHARS = ["|", "\"", "\\", "'", ",", " ", "(", ")", "[", "]", "{", "}", ":", "a", "Z", "0", "\n", "\t", "\r",
+ADV_CHARS = ["|", "\"", "\\", "'", ",", " ", "(", ")", "[", "]", "{", "}", ":", "a", "A", "Z", "z", "0", "\n", "\t", "\r",
              "é", "中", "\u0007", "​", "\U0001F600", "S", "o", "m", "e", "N"]
-MODELLED = set(["|", "\"", "\\", "'", ",", " ", "(", ")", "[", "]", "{", "}", ":", "a", "Z", "0", "\n", "\t", "\r",
+MODELLED = set(["|", "\"", "\\", "'", ",", " ", "(", ")", "[", "]", "{", "}", ":", "a", "A", "Z", "z", "0", "\n", "\t", "\r", "x", "y",
                 "S", "o", "m", "e", "N"])
 
 
@@ -101,6 +101,20 @@ def random_tuples(rng, n):
     D = {k: [] for k in ("i_i", "s", "s_s", "s_s_s", "rs_c", "b_oi", "vi_vi", "vs", "t_i", "os_s", "sl", "m_pt", "m_w",
                          "five", "f_f")}
     ri = lambda: rng.choice([0, 1, -1, 7, 12, 123, -123, 2 ** 31 - 1, -2 ** 31, 10, 100])
+    # long strings that differ only far from the start / in their last character / in case / in
+    # surrounding whitespace (truncation, hashing of a prefix, case folding, trimming)
+    for i in range(max(8, n // 10)):
+        base = tuple("xy"[(i + j) % 2] for j in range(rng.randint(30, 90)))
+        v1 = base + ("a",)
+        v2 = base + ("A",)
+        v3 = base + ("a", " ")
+        v4 = (" ",) + base + ("a",)
+        for v in (v1, v2, v3, v4, base):
+            D["s"].append([S(v)])
+            D["s_s"].append([S(v), S(("a",))])
+            D["m_w"].append([W(v), S(("a",))])
+            D["vs"].append([V([S(v)])])
+            D["os_s"].append([Opt(True, S(v)), S(())])
     for _ in range(n):
         a, b, c = rstr(rng), rstr(rng), rstr(rng)
         D["s_s"].append([S(a), S(b)])
